@@ -3,10 +3,10 @@
 Require Extraction.
 Require ExtrOcamlBasic.
 From Coq Require Import ZArith.
-From GS Require Import Cluster ClusterLTS ClusterGo.
+From GS Require Import Cluster ClusterLTS ClusterGo ClusterMon.
 Extraction Language OCaml.
 Extraction "m_cluster.ml"
   repaired new_entries build_pending build_pending_set in_result_set emap_eqb dedup_maps plan_okb
   hygienicb collision ids_of keys pending_actions commit set_runtime clear_runtime remove_entry count
-  id_eqb gaccept gaccepted_prefix live_okb g_s g_run g_cx g_self s_pc s_entries s_live s_stopping
+  id_eqb gaccept gaccepted_prefix c16_monitor live_okb g_s g_run g_cx g_self s_pc s_entries s_live s_stopping
   Z.of_N. (* Z.of_N only so that ocaml/util.ml (shared) finds the type z *)
